@@ -22,7 +22,9 @@ RULE = ("(http) each run = a route table of <=3 GET and <=3 POST routes with dis
         "keep-alive reuse, client disconnect at a drawn byte of the request, .webc then connect; (ws) 1-8 pushed JSON messages "
         "over all JSON kinds, values sent through the connection, peer close mid-sequence; all under a seeded schedule and "
         "seeded stream fragmentation; non-trivial = >= 2 requests/messages and (a fragmented stream or an error/disconnect "
-        "step); distinct = digest of the event log")
+        "step); distinct = digest of the event log.  Also drawn: routes ending in a slash, POST with a query string, a handler "
+        "name holding a plain value for a while; websocket: two connections, messages of 70 kB / 170 kB, sends of computed "
+        "numbers, of dictionaries with numeric keys and of a dictionary amended in place between sends")
 ASSUMPTIONS = [
     "no repeated query keys; handlers have arity 1 (web) / 2 (.ws.m) as the docs require",
     "an incomplete request carries no obligation except that no handler sees it and the server keeps serving",
@@ -36,7 +38,9 @@ REAL_STUB = {
 }
 EXPECTED_PROBES = ["probe_get_ok", "probe_post_ok", "probe_unknown_path", "probe_wrong_method", "probe_handler_raised", "probe_redefined",
                    "probe_concurrent_pair", "probe_keepalive_reuse", "probe_disconnect_mid_request", "probe_webc", "probe_nonascii_param",
-                   "probe_ws_pushed", "probe_ws_sent", "probe_ws_peer_close", "probe_ws_mixed_list", "probe_ws_object"]
+                   "probe_ws_pushed", "probe_ws_sent", "probe_ws_peer_close", "probe_ws_mixed_list", "probe_ws_object",
+                   "probe_handler_rebound_to_non_function", "probe_request_while_handler_is_not_a_function", "probe_post_with_query_string",
+                   "probe_ws_send_mutated_dict", "probe_ws_two_connections"]
 WALL_CAP = {"quick": 400, "thorough": 3600}
 PORT = 8080
 WSPORT = 9000
